@@ -469,6 +469,11 @@ async fn scenario(w: &Arc<World>, p: &Plan) {
 }
 
 fn classify(e: &edp_node::Error) -> String {
+    // whichever variant carries it, a call that gave up waiting is a timeout
+    let text = e.to_string().to_lowercase();
+    if !matches!(e, edp_node::Error::RpcTimeout(_) | edp_node::Error::Client(_)) && (text.contains("timeout") || text.contains("timed out")) {
+        return "RpcTimeout".into();
+    }
     match e {
         edp_node::Error::RpcTimeout(_) => "RpcTimeout".into(),
         edp_node::Error::RpcCancelled => "RpcCancelled".into(),
